@@ -4,6 +4,7 @@ import (
 	"bytes"
 	"encoding/binary"
 	"fmt"
+	"strings"
 
 	"github.com/tink-crypto/tink-go/v2/aead"
 	aeadctrhmac "github.com/tink-crypto/tink-go/v2/aead/aesctrhmac"
@@ -38,6 +39,7 @@ import (
 	tinkpb "github.com/tink-crypto/tink-go/v2/proto/tink_go_proto"
 	"github.com/tink-crypto/tink-go/v2/secretdata"
 	"github.com/tink-crypto/tink-go/v2/signature"
+	"github.com/tink-crypto/tink-go/v2/signature/compositemldsa"
 	"github.com/tink-crypto/tink-go/v2/signature/ecdsa"
 	"github.com/tink-crypto/tink-go/v2/signature/ed25519"
 	"github.com/tink-crypto/tink-go/v2/signature/mldsa"
@@ -255,16 +257,38 @@ func keyIDSection(x *h.X) {
 // ---------------------------------------------------------------------------------------------------
 // key generation
 
+// composite ML-DSA parameter sets without RSA components (3072/4096-bit RSA generation is covered by the plain RSA entries).
+var compositeSets = []struct {
+	name string
+	alg  compositemldsa.ClassicalAlgorithm
+	inst compositemldsa.MLDSAInstance
+	draw int // entropy of one signature: ML-DSA rnd (32) + hedged ECDSA Z
+}{
+	{"ML_DSA_65_ED25519", compositemldsa.Ed25519, compositemldsa.MLDSA65, 32},
+	{"ML_DSA_65_ECDSA_P256", compositemldsa.ECDSAP256, compositemldsa.MLDSA65, 32 + 32},
+	{"ML_DSA_65_ECDSA_P384", compositemldsa.ECDSAP384, compositemldsa.MLDSA65, 32 + 48},
+	{"ML_DSA_87_ECDSA_P384", compositemldsa.ECDSAP384, compositemldsa.MLDSA87, 32 + 48},
+	{"ML_DSA_87_ECDSA_P521", compositemldsa.ECDSAP521, compositemldsa.MLDSA87, 32 + 66},
+}
+
 type genDef struct {
 	name   string
 	params func() (key.Parameters, error)
 	slow   bool // thorough tier only
 }
 
+// heavy: expensive key generation (SLH-DSA): one distinguished value per position also in the thorough tier.
+func (g genDef) heavy() bool { return strings.HasPrefix(g.name, "SLH_DSA") }
+
 func (g genDef) String() string { return g.name }
 
 func tmpl(f func() *tinkpb.KeyTemplate) func() (key.Parameters, error) {
 	return func() (key.Parameters, error) { return vb.ParseParameters(f()) }
+}
+
+func slhName(ht slhdsa.HashType, ks int, st slhdsa.SignatureType) string {
+	return fmt.Sprintf("SLH_DSA_%s_%d%s", map[slhdsa.HashType]string{slhdsa.SHA2: "SHA2", slhdsa.SHAKE: "SHAKE"}[ht], ks/4*8,
+		map[slhdsa.SignatureType]string{slhdsa.FastSigning: "f", slhdsa.SmallSignature: "s"}[st])
 }
 
 func gens() []genDef {
@@ -344,12 +368,16 @@ func gens() []genDef {
 		out = append(out, genDef{"ML_DSA_" + inst.n, func() (key.Parameters, error) { return mldsa.NewParameters(inst.i, mldsa.VariantTink) }, false})
 		out = append(out, genDef{"JWT_ML_DSA_" + inst.n, func() (key.Parameters, error) { return jwtmldsa.NewParameters(jwtmldsa.IgnoredKID, inst.j) }, inst.n != "44"})
 	}
+	for _, c := range compositeSets {
+		c := c
+		out = append(out, genDef{"COMPOSITE_" + c.name, func() (key.Parameters, error) { return compositemldsa.NewParameters(c.alg, c.inst, compositemldsa.VariantTink) }, false})
+	}
 	for _, ht := range []slhdsa.HashType{slhdsa.SHA2, slhdsa.SHAKE} {
 		for _, ks := range []int{64, 96, 128} {
 			for _, st := range []slhdsa.SignatureType{slhdsa.FastSigning, slhdsa.SmallSignature} {
 				ht, ks, st := ht, ks, st
 				slow := !(ks == 64 && st == slhdsa.FastSigning) && !(ht == slhdsa.SHA2 && ks == 96 && st == slhdsa.FastSigning)
-				out = append(out, genDef{fmt.Sprintf("SLH_DSA_%v_%d_%v", ht, ks/4*8, st), func() (key.Parameters, error) {
+				out = append(out, genDef{slhName(ht, ks, st), func() (key.Parameters, error) {
 					return slhdsa.NewParameters(ht, ks, st, slhdsa.VariantTink)
 				}, slow})
 			}
@@ -381,6 +409,15 @@ type keyMaterial struct {
 	p, q     []byte
 	scalar   int  // size of one private-scalar candidate draw
 	mask     byte // see kemDef.mask
+}
+
+// privImage: all secret components (identity fields, then the private value).
+func (m keyMaterial) privImage() []byte {
+	var out []byte
+	for _, f := range m.identity {
+		out = append(out, f.b...)
+	}
+	return append(out, m.private...)
 }
 
 func publicImage(k key.Key) []byte {
@@ -480,6 +517,15 @@ func materialOfKey(k key.Key) (km keyMaterial, ok bool) {
 	case *jwtecdsa.PrivateKey:
 		b := d(kk.PrivateKeyValue())
 		return keyMaterial{private: b, public: publicImage(k), scalar: len(b), mask: 0x01}, true
+	case *compositemldsa.PrivateKey:
+		a, ok1 := materialOfKey(kk.MLDSAPrivateKey())
+		b, ok2 := materialOfKey(kk.ClassicalPrivateKey())
+		if !ok1 || !ok2 || b.p != nil {
+			return km, false
+		}
+		b.identity = append(a.identity, b.identity...)
+		b.public = publicImage(k)
+		return b, true
 	case *rsassapss.PrivateKey:
 		return keyMaterial{p: d(kk.P()), q: d(kk.Q()), public: publicImage(k)}, true
 	case *rsassapkcs1.PrivateKey:
@@ -603,11 +649,11 @@ func keygenSection(x *h.X) {
 	x.NonTrivial()
 	km := g0.km
 	switch {
-	case km.identity != nil:
+	case km.identity != nil && km.private == nil && km.p == nil:
 		x.Outcome("identity/" + fmt.Sprintf("%T", g0.key))
 		// L1 for every tape content; L2: two generations on one tape
 		span := total(g0.ds)
-		for _, tc := range identityContents(span, x.Thorough()) {
+		for _, tc := range identityContents(span, x.Thorough() && !gd.heavy()) {
 			cfg := fmt.Sprintf("%s tape=%v", desc, tc)
 			e.load(tc)
 			end := 0
@@ -638,12 +684,26 @@ func keygenSection(x *h.X) {
 		}
 	case km.private != nil:
 		x.Outcome("ec-scalar/" + fmt.Sprintf("%T", g0.key))
-		for i, dd := range g0.ds {
-			if i != g0.idDraw && dd.N != km.scalar {
-				x.Fail("unexplained-draw", "%s: draw %v is neither the key id nor a %d-byte private-scalar candidate", desc, dd, km.scalar)
+		// (composite keys: the identity components (ML-DSA seed) must each be exactly one draw)
+		explained := map[int]bool{g0.idDraw: true}
+		for _, f := range km.identity {
+			found := false
+			for i, dd := range g0.ds {
+				if !explained[i] && dd.N == len(f.b) && bytes.Equal(e.tp.Bytes(dd.Off, dd.N), f.b) {
+					explained[i], found = true, true
+					break
+				}
+			}
+			if !found {
+				x.Fail("key-not-drawn-bytes", "%s: %s %x is not a draw of this call (draws %v)", desc, f.name, f.b, g0.ds)
 			}
 		}
-		if len(g0.ds) < 2 {
+		for i, dd := range g0.ds {
+			if !explained[i] && dd.N != km.scalar {
+				x.Fail("unexplained-draw", "%s: draw %v is neither the key id, an identity component nor a %d-byte private-scalar candidate", desc, dd, km.scalar)
+			}
+		}
+		if len(g0.ds) < 2+len(km.identity) {
 			x.Fail("short-draw", "%s: no draw for the private key (draws %v)", desc, g0.ds)
 		}
 		// L2: a second generation continues the tape and gives a different key
@@ -652,7 +712,7 @@ func keygenSection(x *h.X) {
 			return
 		}
 		consecutive(x, desc, consecutive(x, desc, start, g0.ds), g1.ds)
-		if bytes.Equal(g1.km.private, km.private) || bytes.Equal(g1.km.public, km.public) {
+		if bytes.Equal(g1.km.privImage(), km.privImage()) || bytes.Equal(g1.km.public, km.public) {
 			x.Fail("key-repeats", "%s: two generations on one tape give the same key", desc)
 		}
 		// L4: same tape => same key; every drawn scalar byte matters
@@ -660,7 +720,7 @@ func keygenSection(x *h.X) {
 		if g, ok := generate(e, entry, params, kt, desc+" replay"); ok && !g.key.Equal(g0.key) {
 			x.Fail("not-reproducible", "%s: the same tape gives a different key", desc)
 		}
-		privs, pubs := [][]byte{km.private}, [][]byte{km.public}
+		privs, pubs := [][]byte{km.privImage()}, [][]byte{km.public}
 		targets := g0.materialTargets()
 		if !x.Thorough() {
 			var t2 []int
@@ -677,7 +737,7 @@ func keygenSection(x *h.X) {
 			if !ok {
 				return
 			}
-			privs, pubs = append(privs, g.km.private), append(pubs, g.km.public)
+			privs, pubs = append(privs, g.km.privImage()), append(pubs, g.km.public)
 		}
 		distinct(x, "key-ignores-drawn-byte", desc, "private keys under tapes differing in one drawn byte (index 0 = unmodified tape)", privs)
 		distinct(x, "key-ignores-drawn-byte", desc, "public keys under tapes differing in one drawn byte (index 0 = unmodified tape)", pubs)
